@@ -4,7 +4,7 @@ EXTENDS Scanner
    string / interpolation / escape characters, white space, a comment starter, 2- and 4-byte characters,
    a character that starts no token *)
 Broad == {"a", "i", "f", "n", "s", "1", "9", ".", "\"", "$", "{", "}", "\\", "x", "u", " ", "\n", "/", "=", "<", "|", "&", "-", "@", "é", "😀"}
-Numbers == {"1", "2", ".", "a", "l", "e"}
+Numbers == {"1", "2", ".", "a", "l", "e", "_"}
 Strings6 == {"\"", "$", "{", "}", "a", "\\", "\n"}
 Escapes == {"\"", "\\", "x", "u", "U", "f", "9", "e", "b", "a", "$", "n", "0"}
 Words == {"a", "s", "i", "f", "n", "l", "e", "r", "t", "u", " ", "S", "o", "_"}
